@@ -159,13 +159,57 @@ theorem allowed_effect_exact (c : Config) (o : Obj) (name : PyStr) (op : Op) (n 
 
 /-! #### the other handlers that reach attributes by a peer-chosen name -/
 
-/-- `_handle_cmp` (on `type(obj)`) and `_handle_ctxexit` (name `__exit__`) are read-then-call through the same
-`_access_attr`: refused ⇒ nothing but probes; allowed ⇒ only the name `_check_attr` approved is read and called -/
-theorem cmp_denied_no_effect (c : Config) (ty : Obj) (opName : Name) (e : Err)
-    (hh : ty.hook .get = none) (h : (handleCmp c ty opName).out = .error e) :
-    OnlyProbes ty (handleCmp c ty opName).log
-    ∧ (PureProbes ty → (handleCmp c ty opName).log.filter Ev.isEffect = []) :=
-  getcall_denied c ty opName e hh h
+/-- (used below; the general statement is `hooks_override` in section 3) -/
+theorem hooks_override_get (c c' : Config) (o : Obj) (nm : Name) (h : Hook) (hh : o.hook .get = some h) :
+    run c o nm .get = run c' o nm .get := by
+  unfold run
+  cases decodeName nm with
+  | error e => rfl
+  | ok name => simp [runNamed, hh]
+
+
+/-- `_handle_cmp` and `_handle_ctxexit` (name `__exit__`) are read-then-call through the same `_access_attr`.
+`_handle_cmp` works on `type(obj)` (so that comparing proxies of proxies does not recurse) UNLESS the object's class
+defines `_rpyc_getattr`: then the object's own hook decides (`respects`, measured on the live code).
+Refused ⇒ nothing but probes; allowed ⇒ only the name `_check_attr` approved is read and called. -/
+theorem cmp_denied_no_effect (c : Config) (o ty : Obj) (opName : Name) (e : Err) (r : Bool)
+    (ho : o.hook .get = none) (hh : ty.hook .get = none) (h : (handleCmp r c o ty opName).out = .error e) :
+    OnlyProbes ty (handleCmp r c o ty opName).log
+    ∧ (PureProbes ty → (handleCmp r c o ty opName).log.filter Ev.isEffect = []) := by
+  have heq : handleCmp r c o ty opName = thenCall ty (run c ty opName .get) := by
+    cases r <;> simp [handleCmp, ho]
+  rw [heq] at h ⊢
+  exact getcall_denied c ty opName e hh h
+
+/-- **An object's own hook decides comparisons too**: when the object's class defines `_rpyc_getattr` (restricted
+views, services or any class with a hook) a HANDLE_CMP request is the hook's to answer — the configuration, the
+type's attributes and the metaclass are not consulted: any two configurations and any two `type(obj)` descriptions
+give the same result and the same events. -/
+theorem cmp_hook_decides (c c' : Config) (o ty ty' : Obj) (opName : Name) (h : Hook) (hh : o.hook .get = some h) :
+    handleCmp true c o ty opName = handleCmp true c' o ty' opName := by
+  simp only [handleCmp, hh]
+  rw [hooks_override_get c c' o opName h hh]
+
+/-- measured on the live code (obligation): `_handle_cmp` asks the object's own hook -/
+theorem cmp_respects_object_hook : Gen.Policy.cmpRespectsObjectHook = true := by decide
+
+/-- the "vault" of the counterexample: its hook refuses every name; its class has `__getitem__` -/
+def getitemName : PyStr := [95, 95, 103, 101, 116, 105, 116, 101, 109, 95, 95]
+def vault : Obj := { id := 0, has := fun _ => true, hook := fun | .get => some denyHook | _ => none }
+def vaultType : Obj := plainObj 3 (fun n => n == getitemName)
+
+/-- **Counterexample for the variant that looks the operator up on `type(obj)` unconditionally** (the code before
+the repair `fixes/C06-cmp-respects-object-hook.patch`): under the DEFAULT configuration a peer's
+`HANDLE_CMP(vault, key, "__getitem__")` reads and calls `Vault.__getitem__` although the vault's own hook refuses
+every name — "objects that define their own attribute hooks decide instead of the configuration" fails; with the
+object's hook respected the same request is refused and nothing is touched. -/
+theorem cmp_bypass_counterexample :
+    (handleCmp false defaultConfig vault vaultType (.text getitemName)).out = .ok (.direct getitemName)
+    ∧ (handleCmp false defaultConfig vault vaultType (.text getitemName)).log
+        = [.probe 3 (Gen.Policy.cfgExposedPrefixCp ++ getitemName), .access 3 .get getitemName, .call 3 getitemName]
+    ∧ (handleCmp true defaultConfig vault vaultType (.text getitemName)).out = .error .attributeError
+    ∧ (handleCmp true defaultConfig vault vaultType (.text getitemName)).log = [.hook 0 .get getitemName] := by
+  decide
 
 theorem ctxexit_denied_no_effect (c : Config) (o : Obj) (e : Err)
     (hh : o.hook .get = none) (h : (handleCtxExit c o).out = .error e) :
@@ -173,11 +217,15 @@ theorem ctxexit_denied_no_effect (c : Config) (o : Obj) (e : Err)
     ∧ (PureProbes o → (handleCtxExit c o).log.filter Ev.isEffect = []) :=
   getcall_denied c o (.text exitName) e hh h
 
-theorem cmp_reaches_only_approved (c : Config) (ty : Obj) (opName : Name) (hh : ty.hook .get = none)
-    (hp : PureProbes ty) (ev : Ev) (hev : ev ∈ (handleCmp c ty opName).log) (heff : ev.isEffect = true) :
+theorem cmp_reaches_only_approved (c : Config) (o ty : Obj) (opName : Name) (r : Bool)
+    (ho : o.hook .get = none) (hh : ty.hook .get = none)
+    (hp : PureProbes ty) (ev : Ev) (hev : ev ∈ (handleCmp r c o ty opName).log) (heff : ev.isEffect = true) :
     ∃ s n, decodeName opName = .ok s ∧ checkAttr c ty.has s .get = .ok n
-      ∧ (ev = .access ty.id .get n ∨ ev = .call ty.id n) :=
-  getcall_effects c ty opName hh hp ev hev heff
+      ∧ (ev = .access ty.id .get n ∨ ev = .call ty.id n) := by
+  have heq : handleCmp r c o ty opName = thenCall ty (run c ty opName .get) := by
+    cases r <;> simp [handleCmp, ho]
+  rw [heq] at hev
+  exact getcall_effects c ty opName hh hp ev hev heff
 
 theorem ctxexit_reaches_only_approved (c : Config) (o : Obj) (hh : o.hook .get = none)
     (hp : PureProbes o) (ev : Ev) (hev : ev ∈ (handleCtxExit c o).log) (heff : ev.isEffect = true) :
@@ -379,36 +427,51 @@ theorems show that each bad variant really does violate the statement in this mo
 are not true by construction of the state space). -/
 
 /-- **The code copies.** Measured on the live code: `__init__` builds an own dict (copy of the defaults, then the
-caller's keys), classic mode writes its overrides into the connection's own dict and grows no shared set. -/
-theorem measured_modes_are_good : Modes.measured = Modes.good := by decide
+caller's keys), classic mode writes its overrides into the connection's own dict and grows no shared set, a server
+constructed without a configuration makes a dict of its own.  The two harmless choices — whether a server keeps the
+dict object it was given, whether the `safe_attrs` set is copied too — are followed in whichever direction the code
+goes. -/
+theorem measured_modes_are_good :
+    Modes.measured = Modes.good Gen.Policy.serverKeepsGivenDict (!Gen.Policy.initSharesDefaultSafeSet) := by decide
 
-/-- … and the copy is SHALLOW (measured): a connection that was given no `safe_attrs` refers to the very set object
-`DEFAULT_CONFIG` refers to — which is how the model's `defaultDict`/`copy` treat it -/
-theorem default_safe_set_is_shared_by_reference :
-    Gen.Policy.initSharesDefaultSafeSet = true ∧ defaultDict.safe = some .dfltSet := by decide
+/-- further measured facts the heap model relies on (obligations): `restricted` views have read and write hooks and
+NO delete hook (as `restrictedView` says); both per-client paths of the servers (`ThreadedServer._serve_client`,
+`ThreadPoolServer._authenticate_and_build_connection`) connect with a private dict; a classic connect leaves a
+caller-supplied `safe_attrs` set alone -/
+theorem construction_facts_are_modelled :
+    Gen.Policy.restrictedHasGetHook = true ∧ Gen.Policy.restrictedHasSetHook = true
+    ∧ Gen.Policy.restrictedHasDelHook = false
+    ∧ Gen.Policy.serverPerClientDictPrivate = true
+    ∧ Gen.Policy.classicGrowsCallerSafeSet = false := by decide
 
-/-- **rpyc never writes the defaults nor a caller's dict**: after any history, `DEFAULT_CONFIG` (dict and set object)
-and every settings-dict object of the application hold exactly what the application itself put there. -/
-theorem shared_objects_never_written (w : HWorld) (evs : List HEvent) (r : Ref) (hr : r.appOwned = true)
-    (happ : ∀ e ∈ evs, e.mayEdit r = false) (hset : ∀ e ∈ evs, e.fair = true) :
-    (hrun Modes.measured w evs).dicts r = w.dicts r ∧ (hrun Modes.measured w evs).dfltSet = w.dfltSet := by
+/-- **rpyc never writes (the modelled keys of) the defaults, a caller's dict or another server's configuration**: in
+any history from the initial state, a dict object of the application holds exactly what the application itself put
+there — directly, or through the server that holds it.  (`Server.__init__` does write a `logger` entry into the dict
+it is given: not a key the policy reads, not modelled.) -/
+theorem shared_objects_never_written (pre post : List HEvent) (r : Ref) (hr : r.appOwned = true)
+    (happ : ∀ e ∈ post, e.mayEdit r = false) (hset : ∀ e ∈ post, e.fair = true) :
+    (hrun Modes.measured (hrun Modes.measured HWorld.init pre) post).dicts r
+      = (hrun Modes.measured HWorld.init pre).dicts r
+    ∧ (hrun Modes.measured (hrun Modes.measured HWorld.init pre) post).dfltSet
+      = (hrun Modes.measured HWorld.init pre).dfltSet := by
   rw [measured_modes_are_good]
-  exact ⟨hrun_good_sharedDicts evs w r hr happ, hrun_good_dfltSet evs w hset⟩
+  exact ⟨hrun_good_sharedDicts _ _ post _ r hr (hrun_good_srvInv _ _ pre _ srvInv_init) happ,
+    hrun_good_dfltSet _ _ post _ hset⟩
 
 /-- **A connection's configuration is the copy taken when it was opened.** Once connection `j` is established, after
 ANY further fair history — other connections opened with any dict object (the one `j` was opened with included),
-classic-mode connects, requests, closes, the application editing any of its dicts or `DEFAULT_CONFIG`, `j`'s own
-requests and closing — the configuration `j` enforces is the same. -/
+classic-mode connects, requests, closes, servers constructed / edited / used, the application editing any of its
+dicts or `DEFAULT_CONFIG`, `j`'s own requests and closing — the configuration `j` enforces is the same. -/
 theorem config_frozen_after_open (w : HWorld) (evs : List HEvent) (j : Nat) (hinv : OwnInv w)
     (hf : ∀ e ∈ evs, e.fair = true) (hj : w.conns j ≠ .fresh) :
     (hrun Modes.measured w evs).cfgOf j = w.cfgOf j := by
   rw [measured_modes_are_good]
-  exact hrun_good_frozen evs w j hinv hf hj
+  exact hrun_good_frozen _ _ evs w j hinv hf hj
 
 /-- every state reachable from the initial one has the ownership invariant the theorem above asks for -/
 theorem reachable_owns (evs : List HEvent) : OwnInv (hrun Modes.measured HWorld.init evs) := by
   rw [measured_modes_are_good]
-  exact hrun_good_inv evs _ ownInv_init
+  exact hrun_good_inv _ _ evs _ ownInv_init
 
 /-- **Isolation**, from the initial state: whatever happened before (`pre`), whatever fair events happen after
 (`post`), an established connection keeps its configuration -/
@@ -432,24 +495,27 @@ theorem isolation_decisions (pre post : List HEvent) (j : Nat) (hf : ∀ e ∈ p
   | live ch => simp only [hw] at hcfg ⊢; rw [hcfg]
   | closed ch => rfl
 
-/-- a history in which connection `j` does not take part leaves slot `j` as it is, even before it is opened -/
+/-- (definitional in this model: events are addressed to one slot) a history in which connection `j` does not take
+part leaves slot `j` as it is, even before it is opened -/
 theorem others_cannot_change (w : HWorld) (evs : List HEvent) (j : Nat) (h : ∀ e ∈ evs, e.conn ≠ some j) :
     (hrun Modes.measured w evs).conns j = w.conns j :=
   hrun_conns_other Modes.measured evs w j h
 
-/-- **Opening takes a snapshot**: connection `i`'s own dict is the defaults as they are NOW updated with the caller's
-dict as it is NOW (then the classic overrides iff it is the classic connection), and `_config` is that one object -/
+/-- **Opening takes a snapshot**: connection `i`'s `_config` is one own object holding the defaults as they are NOW
+updated with the caller's dict as it is NOW (then the classic overrides iff it is the classic connection) -/
 theorem open_takes_snapshot (w : HWorld) (i d : Nat) (classic : Bool) (hf : w.conns i = .fresh) :
     (hstep Modes.measured w (.open i d classic)).conns i = .live [.own i]
     ∧ (hstep Modes.measured w (.open i d classic)).dicts (.own i)
-        = (if classic then ((w.dicts .dflt).update (w.dicts (.app d))).update slaveDict
-           else (w.dicts .dflt).update (w.dicts (.app d))) := by
+        = goodOwnDict (!Gen.Policy.initSharesDefaultSafeSet) w (.app d) classic := by
   rw [measured_modes_are_good]
-  simp [hstep, hf, openConn_good_conns, openConn_good_dicts, goodOwnDict]
+  simp [hstep, hf, openConn_good_conns, openConn_good_dicts]
 
 def strictDict : Overlay := { allowPublic := some false, allowSet := some false }
 def laxDict : Overlay := { allowAll := some true, allowSet := some true }
 def goodClassic : ClassicMode := { writesCallerDict := false, addsToSafe := [] }
+/-- a mode record with the two harmless choices as in the pinned code -/
+def modes (i : InitMode) (c : ClassicMode) (own : Bool) : Modes :=
+  { init := i, classic := c, serversOwnDict := own, serverKeepsGiven := true, copiesSafeSet := false }
 
 /-! #### servers: the server-side source of a connection's configuration
 
@@ -461,19 +527,12 @@ Measured on real servers: two servers constructed without a `protocol_config` ho
 for itself holds exactly what the application put there through `k` (or directly): constructing, editing, using and
 closing OTHER servers — before or after `k` was constructed — and every connection event leave it alone. -/
 theorem server_config_is_private (pre post : List HEvent) (k : Nat)
-    (h1 : ∀ e ∈ post, ∀ ov, e ≠ .editDict (.srv k) ov) (h2 : ∀ e ∈ post, ∀ ov, e ≠ .editServer k ov) :
+    (h1 : ∀ e ∈ post, ∀ ov, e ≠ .editDict (.srv k) ov) (h2 : ∀ e ∈ post, ∀ ov, e ≠ .editServer k ov)
+    (h3 : ∀ e ∈ post, ∀ d, e ≠ .newServer k d) :
     (hrun Modes.measured (hrun Modes.measured HWorld.init pre) post).dicts (.srv k)
       = (hrun Modes.measured HWorld.init pre).dicts (.srv k) := by
   rw [measured_modes_are_good]
-  exact hrun_good_serverDict post _ k (hrun_good_srvInv pre _ srvInv_init) h1 h2
-
-/-- a server constructed without a `protocol_config` holds its own object; one constructed with the caller's dict
-holds that object -/
-theorem server_holds (w : HWorld) (k : Nat) (d : Option Nat) (h : w.servers k = none) :
-    (hstep Modes.measured w (.newServer k d)).servers k
-      = some (match d with | some n => .app n | none => .srv k) := by
-  rw [measured_modes_are_good]
-  cases d <;> simp [hstep, h, serverRef, Modes.good]
+  exact hrun_good_serverDict _ _ post _ k (hrun_good_srvInv _ _ pre _ srvInv_init) h1 h2 h3
 
 /-- **A connection made by server `k` decides as `k`'s configuration says at that moment**: its own dict is the
 defaults updated with `k`'s `protocol_config` content (then classic overrides for a classic server) -/
@@ -481,65 +540,68 @@ theorem server_connection_snapshot (w : HWorld) (i k : Nat) (classic : Bool) (r 
     (hf : w.conns i = .fresh) (hs : w.servers k = some r) :
     (hstep Modes.measured w (.serverConn i k classic)).conns i = .live [.own i]
     ∧ (hstep Modes.measured w (.serverConn i k classic)).dicts (.own i)
-        = (if classic then ((w.dicts .dflt).update (w.dicts r)).update slaveDict
-           else (w.dicts .dflt).update (w.dicts r)) := by
+        = goodOwnDict (!Gen.Policy.initSharesDefaultSafeSet) (w.setDict (.tmp i) (w.dicts r)) (.tmp i) classic := by
   rw [measured_modes_are_good]
-  simp [hstep, hf, hs, openConn_good_conns, openConn_good_dicts, goodOwnDict, setDict_other]
+  simp [hstep, hf, hs, openConn_good_conns, openConn_good_dicts]
 
 /-- one dict shared by all servers constructed without a configuration (a mutable default argument): editing server
-1's configuration changes what a connection of server 2 — constructed LATER — allows -/
+1's configuration changes what server 2 hands to its NEXT client — two connections of the same server 2, nothing
+done to server 2 in between, decide differently -/
 theorem shared_server_default_breaks_isolation :
-    (hrun ⟨.copy, goodClassic, false⟩ HWorld.init
-        [.newServer 1 none, .editServer 1 laxDict, .newServer 2 none, .serverConn 5 2 false]).cfgOf 5
-    ≠ (hrun Modes.good HWorld.init
-        [.newServer 1 none, .editServer 1 laxDict, .newServer 2 none, .serverConn 5 2 false]).cfgOf 5 := by
+    (hrun (modes .copy goodClassic false) HWorld.init
+        [.newServer 1 none, .newServer 2 none, .serverConn 3 2 false, .editServer 1 laxDict, .serverConn 5 2 false]).cfgOf 5
+    ≠ (hrun (modes .copy goodClassic false) HWorld.init
+        [.newServer 1 none, .newServer 2 none, .serverConn 3 2 false, .editServer 1 laxDict, .serverConn 5 2 false]).cfgOf 3 := by
   decide
 
-/-! #### the variants that share state violate the statement (concrete witnesses) -/
-
+/-! #### the variants that share state violate the statement (concrete witnesses, each WITHIN its variant) -/
 
 /-- `self._config = DEFAULT_CONFIG`: opening connection 2 with a lax dict changes what the strict connection 1 enforces -/
 theorem aliasDefault_breaks_isolation :
-    (hrun ⟨.aliasDefault, goodClassic, true⟩ HWorld.init
+    (hrun (modes .aliasDefault goodClassic true) HWorld.init
         [.editDict (.app 1) strictDict, .open 1 1 false, .editDict (.app 2) laxDict, .open 2 2 false]).cfgOf 1
-    ≠ (hrun ⟨.aliasDefault, goodClassic, true⟩ HWorld.init
+    ≠ (hrun (modes .aliasDefault goodClassic true) HWorld.init
         [.editDict (.app 1) strictDict, .open 1 1 false]).cfgOf 1 := by decide
 
 /-- a mapping that reads through: the application editing the dict it passed changes the open connection -/
 theorem layered_breaks_isolation :
-    (hrun ⟨.layered, goodClassic, true⟩ HWorld.init
+    (hrun (modes .layered goodClassic true) HWorld.init
         [.editDict (.app 1) strictDict, .open 1 1 false, .editDict (.app 1) laxDict]).cfgOf 1
-    ≠ (hrun ⟨.layered, goodClassic, true⟩ HWorld.init [.editDict (.app 1) strictDict, .open 1 1 false]).cfgOf 1 := by
+    ≠ (hrun (modes .layered goodClassic true) HWorld.init [.editDict (.app 1) strictDict, .open 1 1 false]).cfgOf 1 := by
   decide
 
 /-- the caller's dict object used as `_config`: same -/
 theorem aliasArg_breaks_isolation :
-    (hrun ⟨.aliasArg, goodClassic, true⟩ HWorld.init
+    (hrun (modes .aliasArg goodClassic true) HWorld.init
         [.editDict (.app 1) strictDict, .open 1 1 false, .editDict (.app 1) laxDict]).cfgOf 1
-    ≠ (hrun ⟨.aliasArg, goodClassic, true⟩ HWorld.init [.editDict (.app 1) strictDict, .open 1 1 false]).cfgOf 1 := by
+    ≠ (hrun (modes .aliasArg goodClassic true) HWorld.init [.editDict (.app 1) strictDict, .open 1 1 false]).cfgOf 1 := by
   decide
 
-/-- classic overrides written into the caller's dict: a plain connection opened later with the same dict object does
-not enforce what the application wrote (it would under the good variant) -/
+/-- classic overrides written into the caller's dict: two plain connections opened with the SAME dict object, which
+the application did not touch in between, enforce different policies — because a classic connect came in between -/
 theorem classic_into_caller_dict_breaks_isolation :
-    (hrun ⟨.copy, ⟨true, []⟩, true⟩ HWorld.init
-        [.editDict (.app 1) strictDict, .open 1 1 true, .open 2 1 false]).cfgOf 2
-    ≠ (hrun Modes.good HWorld.init [.editDict (.app 1) strictDict, .open 1 1 true, .open 2 1 false]).cfgOf 2 := by
+    (hrun (modes .copy ⟨true, []⟩ true) HWorld.init
+        [.editDict (.app 1) strictDict, .open 3 1 false, .open 1 1 true, .open 2 1 false]).cfgOf 2
+    ≠ (hrun (modes .copy ⟨true, []⟩ true) HWorld.init
+        [.editDict (.app 1) strictDict, .open 3 1 false, .open 1 1 true, .open 2 1 false]).cfgOf 3 := by
   decide
 
 /-- a classic connect growing the shared default set object in place: connection 1, opened before, now allows `_x` -/
 theorem classic_growing_shared_set_breaks_isolation :
-    (hrun ⟨.copy, ⟨false, [[95, 120]]⟩, true⟩ HWorld.init [.open 1 1 false, .open 2 2 true]).cfgOf 1
-    ≠ (hrun ⟨.copy, ⟨false, [[95, 120]]⟩, true⟩ HWorld.init [.open 1 1 false]).cfgOf 1 := by decide
+    (hrun (modes .copy ⟨false, [[95, 120]]⟩ true) HWorld.init [.open 1 1 false, .open 2 2 true]).cfgOf 1
+    ≠ (hrun (modes .copy ⟨false, [[95, 120]]⟩ true) HWorld.init [.open 1 1 false]).cfgOf 1 := by decide
 
-/-- and in the code AS IT IS the default set object is shared: growing it in place (which rpyc never does — that is
-what `fair` excludes and `measured_modes_are_good` checks for the classic connect) reaches every open connection that
-was not given its own `safe_attrs`; replacing `DEFAULT_CONFIG["safe_attrs"]` by a new set does not -/
+/-- the shallow copy (the pinned code: `Modes.good _ false`) shares the default set object: growing it in place —
+which rpyc never does; that is what `fair` excludes and `measured_modes_are_good` checks for the classic connect —
+reaches every open connection that was not given its own `safe_attrs`; replacing `DEFAULT_CONFIG["safe_attrs"]` by a
+new set does not.  A code base that copies the set as well (`Modes.good _ true`) is immune to both. -/
 theorem shared_default_set_hazard :
-    (hrun Modes.measured HWorld.init [.open 1 1 false, .mutDfltSet [[95, 120]]]).cfgOf 1
-      ≠ (hrun Modes.measured HWorld.init [.open 1 1 false]).cfgOf 1
-    ∧ (hrun Modes.measured HWorld.init [.open 1 1 false, .editDict .dflt { safe := some [[95, 120]] }]).cfgOf 1
-      = (hrun Modes.measured HWorld.init [.open 1 1 false]).cfgOf 1 := by decide
+    (hrun (Modes.good true false) HWorld.init [.open 1 1 false, .mutDfltSet [[95, 120]]]).cfgOf 1
+      ≠ (hrun (Modes.good true false) HWorld.init [.open 1 1 false]).cfgOf 1
+    ∧ (hrun (Modes.good true false) HWorld.init [.open 1 1 false, .editDict .dflt { safe := some [[95, 120]] }]).cfgOf 1
+      = (hrun (Modes.good true false) HWorld.init [.open 1 1 false]).cfgOf 1
+    ∧ (hrun (Modes.good true true) HWorld.init [.open 1 1 false, .mutDfltSet [[95, 120]]]).cfgOf 1
+      = (hrun (Modes.good true true) HWorld.init [.open 1 1 false]).cfgOf 1 := by decide
 
 /-- **What classic mode grants itself** (generated from the live `SlaveService.on_connect`): afterwards every name
 of every hook-less object may be read, written and deleted, as itself (no twin substitution), on THAT connection. -/
@@ -584,11 +646,12 @@ theorem name_error_independent (c c' : Config) (o o' : Obj) (nm : Name) (op op' 
 /-! ### closed world: the generated facts the model relies on -/
 
 /-- every `_access_attr` call site in `Connection` passes a matching (hook, permission, accessor) triple, on the
-object itself (only `_handle_cmp` passes `type(obj)`), and the handlers that fetch by name delegate to
+object itself (`_handle_cmp` passes the object when its class has a read hook and `type(obj)` otherwise), and the handlers that fetch by name delegate to
 `_handle_getattr` (AST of the live source, variable names not recorded; a re-wired permission key breaks this) -/
 theorem call_sites_are_modelled :
     Gen.Policy.accessSites =
-      [("_handle_cmp", true, "_rpyc_getattr", "allow_getattr", "getattr"),
+      [("_handle_cmp", false, "_rpyc_getattr", "allow_getattr", "getattr"),
+       ("_handle_cmp", true, "_rpyc_getattr", "allow_getattr", "getattr"),
        ("_handle_delattr", false, "_rpyc_delattr", "allow_delattr", "delattr"),
        ("_handle_getattr", false, "_rpyc_getattr", "allow_getattr", "getattr"),
        ("_handle_setattr", false, "_rpyc_setattr", "allow_setattr", "setattr")]
